@@ -18,7 +18,11 @@ use serde_json::{json, Value};
 
 use crate::tape::Tape;
 
-pub const VERIF_ROOT: &str = "/verif";
+/// Root of the verification tree (evidence, replays, known findings). The
+/// `check` script exports VERIF_ROOT; the default is /verif.
+pub fn verif_root() -> String {
+    std::env::var("VERIF_ROOT").unwrap_or_else(|_| "/verif".to_string())
+}
 
 #[derive(Clone, Copy, Debug, PartialEq, Eq)]
 pub enum Tier {
@@ -621,7 +625,7 @@ impl PropCtx {
         }
         let mut replay_paths = vec![];
         for (i, f) in failures.iter().enumerate() {
-            let dir = PathBuf::from(VERIF_ROOT).join("out").join("replays").join(self.property);
+            let dir = PathBuf::from(verif_root()).join("out").join("replays").join(self.property);
             let _ = std::fs::create_dir_all(&dir);
             let h = hash_value(&f.case.to_string());
             let path = dir.join(format!("{}-{}-{:016x}-{}.json", self.property, f.subcheck, h, i));
@@ -670,7 +674,7 @@ impl PropCtx {
             "violations": failures.len(),
         });
         if !self.strict {
-            let dir = Path::new(VERIF_ROOT).join("evidence");
+            let dir = Path::new(&verif_root()).join("evidence");
             let _ = std::fs::create_dir_all(&dir);
             let path = dir.join(format!("{}.json", self.property));
             if let Err(e) = std::fs::write(&path, serde_json::to_string_pretty(&ev).unwrap()) {
@@ -702,7 +706,7 @@ impl PropCtx {
 
 /// Load the `known` entries for a property from /verif/known_findings.json.
 fn load_known(property: &str) -> Vec<Known> {
-    let path = Path::new(VERIF_ROOT).join("known_findings.json");
+    let path = Path::new(&verif_root()).join("known_findings.json");
     let Ok(text) = std::fs::read_to_string(&path) else { return vec![] };
     let Ok(v) = serde_json::from_str::<Value>(&text) else {
         eprintln!("known_findings.json does not parse; ignoring");
